@@ -50,6 +50,17 @@ def run_case(case):
                            RecursionError('deep'), ValueError('v'), MemoryError()][b.get('which', 0)]
                     raise exc
                 if k == 'overrun':
+                    # (before overrunning, the handler may have used - and handled - a timeout of its own)
+                    inner = b.get('inner', 0)
+                    if inner == 1:
+                        async with curio.ignore_after(0.01):
+                            await curio.sleep(1)
+                    elif inner == 2:
+                        try:
+                            async with curio.timeout_after(0.01):
+                                await curio.sleep(1)
+                        except curio.TaskTimeout:
+                            pass
                     await curio.sleep(50)
                     return 'late'
                 if k == 'discval':
@@ -60,7 +71,8 @@ def run_case(case):
                     raise session.ReplyAndDisconnect({3})
                 raise AssertionError(k)
 
-        proto, ft, s = sessions.attach(S, kind='server')
+        # (sockbuf: only so many bytes of a write leave at once - a big reply sits in the transport's queue for a while)
+        proto, ft, s = sessions.attach(S, kind='server', sockbuf=case.get('sockbuf'))
 
         async def main():
             singles = []
@@ -159,7 +171,13 @@ class C03(Prop):
                           {'kind': 'ret', 'value': 5, 'delay': 0.2, 'notification': False}]},
                 {'reqs': [{'kind': 'retbad', 'how': 1, 'delay': 0.1, 'notification': False, 'in_batch': True},
                           {'kind': 'ret', 'value': 'x', 'delay': 0.3, 'notification': False, 'in_batch': True}]},
-                {'reqs': [{'kind': 'discbad', 'delay': 0.5, 'notification': False}]}]
+                {'reqs': [{'kind': 'discbad', 'delay': 0.5, 'notification': False}]},
+                {'reqs': [{'kind': 'ret', 'value': 1, 'delay': 0.1, 'notification': False},
+                          {'kind': 'discval', 'value': 'x' * 200000, 'delay': 0.5, 'notification': False, 'in_batch': False}],
+                 'sockbuf': 65536},
+                {'reqs': [{'kind': 'overrun', 'inner': 1, 'delay': 0.1, 'notification': False},
+                          {'kind': 'overrun', 'inner': 2, 'delay': 0.2, 'notification': False, 'in_batch': True},
+                          {'kind': 'ret', 'value': 5, 'delay': 0.3, 'notification': False, 'in_batch': True}]}]
 
     def generate(self, rng, n, tier):
         for _ in range(n):
@@ -175,6 +193,8 @@ class C03(Prop):
                     b['how'] = rng.randrange(5)
                 elif kind == 'other':
                     b['which'] = rng.randrange(7)
+                elif kind == 'overrun':
+                    b['inner'] = rng.choice([0, 1, 2])
                 elif kind in ('rpc', 'proto'):
                     b.update({'code': rng.choice([1, -5, -32000, 7777]), 'msg': rng.choice(['bad', '', 'é\n']),
                               'cost': rng.choice([0.0, 0.0, 25.0, 50.0])})
@@ -187,17 +207,25 @@ class C03(Prop):
                         x['kind'] = 'other'
                 if kind == 'discval':
                     b['value'] = jv.to_plain(rng.choice([1, 'bye', None]))
+                    if rng.random() < 0.4:
+                        # a reply much larger than the socket takes at once, then the disconnect
+                        b['value'] = jv.to_plain('x' * 200000)
                 if kind == 'discerr':
                     b.update({'code': 9, 'msg': 'go away'})
                 if kind == 'refused':
                     b['refused'] = True
                 reqs.append(b)
-            yield {'reqs': reqs}
+            case = {'reqs': reqs}
+            if any(isinstance(x.get('value'), str) and len(x['value']) > 100000 for x in reqs):
+                case['sockbuf'] = 65536
+            yield case
 
     def run_impl(self, case):
         return run_case(case)
 
     def coq_case(self, case, obs):
+        if case.get('sockbuf'):
+            return None          # a 200 kB literal per case: the oracle decides
         order = sorted(range(len(case['reqs'])), key=lambda i: (10.0 + i * 1e-6) if case['reqs'][i]['kind'] == 'overrun' else case['reqs'][i]['delay'])
         entries = jv.from_plain(obs['entries'])
         by_id = {}
